@@ -88,7 +88,7 @@ def render_item(it):
         return f'#[typeshare]\npub struct {it["name"]} {{\n    #[serde(flatten)]\n    pub inner: u8,\n}}\n'
     if k == 'genkey':      # RustTypeFormatError::GenericKeyForbiddenInTS while generating (typescript, python)
         return f'#[typeshare]\npub struct {it["name"]}<K> {{\n    pub m: HashMap<K, u8>,\n}}\n'
-    if k == 'const':       # kotlin / swift write_const: todo!() on the main thread
+    if k == 'const':       # kotlin / swift write_const: Err(Unsupported) while generating, exit 1 (was todo!(): C07-kotlin.rs:183 / C07-swift.rs:268, fixed)
         return f'#[typeshare]\npub const {it["name"].upper()}: u32 = 5;\n'
     raise ValueError(k)
 
@@ -539,7 +539,7 @@ def run(chk):
     run_cases(chk, cases, root, corr_broken, 'g')
     chk.notes.append('empty output for a responsible file (the skip-when-empty branch of check_write_file, theorem C17_empty_output_keeps_file): '
                      f'{chk.counters.get("runs_of_versions_with_an_empty_output", 0)} runs of such versions in this run; every back end writes a header or at least one '
-                     'byte per item (Kotlin without a package has no header but every item kind it supports writes text, consts panic), so the real tool was not '
+                     'byte per item (Kotlin without a package has no header but every item kind it supports writes text, a const fails the run), so the real tool was not '
                      'seen to reach that branch')
     if corr_broken and not [v for v in chk.violations if not v[2]]:
         chk.violation('correspondence', {'correspondence': 'Model/Writer.v run_trace vs the file system left by the real binary', 'cases': corr_broken[:5]},
